@@ -167,6 +167,8 @@ class Interp(InterpBase):
             return self.call_method_builtin(f.recv, f.name, args, kwargs, node, frame)
         if isinstance(f, ExtRef):
             return self.call_ext(f.dotted, args, kwargs, node, frame)
+        if isinstance(f, ExtView) and f.obj.concrete:
+            return self.view_call(f, args, kwargs, node, frame)
         if isinstance(f, ExtView):
             return f  # G.nodes() / G.edges(): the view itself (data= options are not modelled)
         if isinstance(f, type):
@@ -933,6 +935,10 @@ class Interp(InterpBase):
             return "concrete", list(v)
         if isinstance(v, Term):
             return "havoc", v
+        if isinstance(v, ExtObj) and v.concrete:
+            return "concrete", list(v.cnodes)
+        if isinstance(v, ExtView) and v.obj.concrete:
+            return "concrete", list(self.view_native(v))
         if isinstance(v, ExtObj):
             return "havoc", App(f"extiter@{v.version}", (v.name,))
         if isinstance(v, ExtView):
@@ -1713,6 +1719,14 @@ class Interp(InterpBase):
             if isinstance(k, slice):
                 k = App("slice", (k.start, k.stop, k.step))
             return App("index", (c, _h(k)))
+        if isinstance(c, ExtObj) and c.concrete:
+            if not is_native(k):
+                raise Unsupported("symbolic node in a concrete graph", node, fi)
+            if k not in c.cadj:
+                raise Raised(None, "KeyError")
+            return c.cadj[k]
+        if isinstance(c, ExtView) and c.obj.concrete:
+            return self.subscript(self.view_native(c), k, node, frame)
         if isinstance(c, ExtObj):
             return ExtView(c, "adj1", k)
         if isinstance(c, ExtView):
@@ -1885,6 +1899,43 @@ class Interp(InterpBase):
             pos = pos[1:]
         required = pos[: len(pos) - len(fn.args.defaults)] if fn.args.defaults else pos
         return len([p for p in required if p not in keywords])
+
+    # ------------------------------------------------------------------ concrete graph views
+    def view_native(self, w: ExtView) -> Any:
+        """The native (live where networkx' is live) value of a view of a concrete graph."""
+        o = w.obj
+        if w.kind == "nodes":
+            return o.cnodes
+        if w.kind == "adj":
+            return o.cadj
+        if w.kind == "edges":
+            return {(u, v): a for u in o.cnodes for v, a in o.cadj.get(u, {}).items()}
+        if w.kind == "pred":
+            return {n: {u: o.cadj[u][n] for u in o.cnodes if n in o.cadj.get(u, {})} for n in o.cnodes}
+        if not is_native(w.key):
+            raise Unsupported("symbolic node in a concrete graph")
+        if w.key not in o.cnodes:
+            raise Raised(None, "NetworkXError")
+        if w.kind == "adj1":
+            return o.cadj[w.key]
+        return {u: o.cadj[u][w.key] for u in o.cnodes if w.key in o.cadj.get(u, {})}
+
+    def view_call(self, w: ExtView, args: list, kwargs: dict, node: ast.AST | None, frame: Frame | None) -> Any:
+        """G.nodes(data=...) / G.edges(data=..., default=...) of a concrete graph."""
+        data = kwargs.get("data", args[0] if args and w.kind == "nodes" else False)
+        default = kwargs.get("default")
+        nat = self.view_native(w)
+        if w.kind == "nodes":
+            if data is False:
+                return list(nat)
+            return [(n, a if data is True else a.get(data, default)) for n, a in nat.items()]
+        if w.kind == "edges":
+            if args and args[0] is not None:
+                raise Unsupported("G.edges(nbunch)", node, frame.fi if frame else None)
+            if data is False:
+                return list(nat)
+            return [(u, v, a if data is True else a.get(data, default)) for (u, v), a in nat.items()]
+        raise Unsupported(f"call of a {w.kind} view", node, frame.fi if frame else None)
 
     # ------------------------------------------------------------------ isinstance
     def isinstance_(self, v: Any, t: Any, node: ast.AST | None, frame: Frame | None) -> bool:
